@@ -5,7 +5,7 @@ EXPLANATION = ("Bounded: subset against a content oracle (rows identified by uni
                "exactly as referenced or as the options say, dangling individual parents dropped) and split-by-subset / "
                "re-join-by-union with non-identity node mappings (individuals, populations and individual parents of shared "
                "and new nodes) on seeded small collections. Proved: the integrity gate both operations call first (C02).")
-C_FUNCS = [("tables.c", "tsk_table_collection_check_integrity")]
+C_FUNCS = [("tables.c", "tsk_table_collection_check_integrity"), ("tables.c", "tsk_table_collection_add_and_remap_node")]
 BOUNDED = [{"name": "subset_union_content", "module": "standins.c14_subset_union", "timeout": 900}]
 UNVERIFIED = ["tsk_table_collection_subset, _union, _add_and_remap_node, tsk_check_subset_equality (bounded only)"]
 ASSUMPTIONS = []
